@@ -303,7 +303,7 @@ class Scratch:
         shutil.rmtree(self.root, ignore_errors=True)
 
 
-def run_impl(sc, spec, env=None, timeout=60, crash=None, yield_seed=None, binary="wfrun", gomaxprocs=None, kill_after=None):
+def run_impl(sc, spec, env=None, timeout=60, crash=None, yield_seed=None, binary="wfrun", gomaxprocs=None, kill_after=None, strace_kill=None):
     """one run of the real library in sc.work; returns observables"""
     specp = os.path.join(sc.root, "SPEC")
     open(specp, "w").write(spec.text(with_files=False))
@@ -326,7 +326,12 @@ def run_impl(sc, spec, env=None, timeout=60, crash=None, yield_seed=None, binary
         e.update(env)
     ntrace0 = len(open(trace).read().splitlines()) if os.path.exists(trace) else 0
     t0 = time.time()
-    p = subprocess.Popen([os.path.join(vlib.BIN, binary), specp], cwd=sc.work, env=e, stdout=subprocess.PIPE, stderr=subprocess.PIPE,
+    argv = [os.path.join(vlib.BIN, binary), specp]
+    if strace_kill:
+        # fault injection without a hook: SIGKILL at the n-th write(2) to one file (strace -P <file> -e inject=write:signal=SIGKILL:when=n)
+        path, when = strace_kill
+        argv = ["strace", "-f", "-o", "/dev/null", "-P", os.path.join(sc.work, path), "-e", "trace=write", "-e", "inject=write:signal=SIGKILL:when=%d" % when] + argv
+    p = subprocess.Popen(argv, cwd=sc.work, env=e, stdout=subprocess.PIPE, stderr=subprocess.PIPE,
                          start_new_session=True, text=True)
     timed_out = False
     killed = False
@@ -376,6 +381,10 @@ def run_impl(sc, spec, env=None, timeout=60, crash=None, yield_seed=None, binary
             t = ln.split(" ")
             if len(t) >= 3:
                 res["hooks"].append((int(t[0]), t[1], int(t[2]), t[3:]))
+    try:
+        res["log_tail"] = open(os.path.join(sc.work, "wfrun.log"), errors="replace").read()[-700:]
+    except OSError:
+        res["log_tail"] = ""
     res["fs"] = snapshot_dir(sc.work)
     # what lies beside the working directory (parent-relative and absolute outputs), keyed relative to work/
     outside = {}
@@ -399,7 +408,7 @@ def data_files(fs, audit=False, temp=False):
             continue
         if not temp and any(seg.startswith("_scipipe_tmp") for seg in p.split("/")):
             continue
-        if p.endswith(".audit.json") and not audit:
+        if (p.endswith(".audit.json") and not audit) or p.endswith(".audit.json.tmp"):
             continue
         out[p] = data
     return out
@@ -551,6 +560,7 @@ def report_t3(rep, module, proved, results, what_corr, violation_kinds=None):
             kinds = [k for k, _ in r["problems"]]
             rep.violation("; ".join("%s: %s" % p for p in r["problems"])[:1500],
                           {"kind": kinds[0], "spec": r["spec"], "bufsize": r.get("bufsize"), "yield": r.get("yield"), "problems": r["problems"],
+                           "case": {k: v for k, v in r.items() if k in ("mode", "point", "second", "kind", "shape", "sizes", "chain", "log_tail")},
                            "stderr": r.get("stderr"), "how_to_replay": "write spec to a file, plant FILE lines, run build/bin/wfrun SPEC in an empty directory with SCIPIPE_BUFSIZE set"})
             found = True
             if len(rep.violations) >= 5:
